@@ -572,6 +572,37 @@ def check(ctx):
             construct = f"{fi.qualname}:try({','.join(kids) or '-'})"
             ctx.check(len(set(kids)) <= 1, "C02.R12", construct, None,
                       f"the try block invokes {kids} under one `except ValidationError`: for an item whose key and value are both invalid only the first violation is reported (the other one appears once the first is fixed)", fi, t_, detail=f"children: {kids or 'none / loop-selected'}")
+    # ---------------- R13: a caught child error is not displaced by another raising call
+    ctx.rule("C02.R13", "inside `except ValidationError as err`, a call that can itself raise ValidationError (the coercer, a child) is guarded by its own try: otherwise its error propagates *instead of* `err` and the violations already collected are lost", floor=1)
+    n13 = 0
+    for fi in own_methods(deser_nodes(model)):
+        for t_ in walk_no_nested(fi.node):
+            if not isinstance(t_, ast.Try):
+                continue
+            for h in t_.handlers:
+                if h.type is None or not is_ve(model, fi, h.type) or h.name is None:
+                    continue
+                uses_err = any(isinstance(x, ast.Name) and x.id == h.name for s_ in h.body for x in ast.walk(s_))
+                if not uses_err:
+                    continue
+                hpar = {c_: p_ for s_ in h.body for p_ in ast.walk(s_) for c_ in ast.iter_child_nodes(p_)}
+                for s_ in h.body:
+                    for c in ast.walk(s_):
+                        if not (isinstance(c, ast.Call) and (norm(c.func) == "self.coercer" or (isinstance(c.func, ast.Attribute) and c.func.attr == "deserialize"))):
+                            continue
+                        n13 += 1
+                        p_ = hpar.get(c)
+                        guarded = False
+                        while p_ is not None:
+                            if isinstance(p_, ast.Try) and any(x is c for b in p_.body for x in ast.walk(b)) and any(hh.type is None or is_ve(model, fi, hh.type) for hh in p_.handlers):
+                                guarded = True
+                                break
+                            p_ = hpar.get(p_)
+                        ctx.check(guarded, "C02.R13", f"{fi.qualname}:except {norm(h.type)}:{norm(c.func)}", None,
+                                  f"`{short(c, 50)}` is called while `{h.name}` (the errors of the value) is pending and can raise a ValidationError of its own (a datum the coercer refuses): that error is raised instead, e.g. deserialize(Optional[List[int]], [1, 'a'], coerce=True) reports only 'expected type null' and not the error at [1]",
+                                  fi, c, detail="own try / except ValidationError around the call")
+    ctx.require(n13 >= 1, "no raising call inside an `except ValidationError as err` handler found (OptionalMethod changed?)")
+
     # ---------------- R10: order of the flattened errors
     ctx.rule("C02.R10", "ValidationError.errors lists children in natural key order (indices numerically); the stringifying sort key is only the fallback for incomparable keys", floor=2)
     em = model.func(f"{ERRORS_MOD}.ValidationError._errors")
@@ -704,6 +735,8 @@ def deserialize(self, data):
 
 
 def mutants(mb):
+    mb.add_text("optional-coercer-unguarded", "apischema/deserialization/methods.py", "            if self.coercer is not None:\n                try:\n                    if self.coercer(NoneType, data) is None:\n                        return None\n                except ValidationError:\n                    pass  # not coercible to None: the errors of the value are reported\n            raise merge_errors(err, bad_type(data, NoneType))\n",
+                "            if self.coercer is not None and self.coercer(NoneType, data) is None:\n                return None\n            raise merge_errors(err, bad_type(data, NoneType))\n", "C02.R13", "OptionalMethod")
     P = "apischema/deserialization/methods.py"
     # R1: drop the assignment at several sites
     mb.add_text("tuple-drop-assign", P, "                elt_errors = set_child_error(elt_errors, i, err)\n        validate_constraints(data, self.constraints, elt_errors)\n        return tuple(elts)",
